@@ -19,15 +19,27 @@ RULE = ('seeded random histories of 5..40 operations over 1..5 masters of a vers
         'fetched with connection=conn2 while the class connection is a decoy database with masters of the same ids and their own versions (20 %), '
         'through a Transaction of conn2 (20 %): create, attribute '
         'assignment, multi-column set (also empty, also values equal to the current ones), restore of a random existing version (of any '
-        'master, also one equal to the current row, also twice the same); three streams: valid (the generator simulates the tables and '
-        'keeps only operations that go through), failing (ill-typed updates, creations without the required column, restores of unknown '
+        'master, also one equal to the current row, also twice the same), and in every stream 7 % read-only calls Version.nextVersion() / '
+        'getChangedFields() on a random version; five streams: valid (the generator simulates the tables and '
+        'keeps only operations that go through), destroy (2 of 7: valid operations plus destroySelf of masters and of versions, 22 % read-only calls, '
+        'some operations on what was destroyed: restore of a destroyed version or of an orphan, nextVersion of the last orphan, masters created '
+        'after a destroy), failing (ill-typed updates, creations without the required column, restores of unknown '
         'versions, unknown masters, a few set() calls with an unknown keyword), dbrefused (as failing, plus values of a that collide with another '
         'master: open finding) and kwrefused (every other set() carries an unknown keyword: open finding; the updates after it are judged). '
+        'In front of them n/15 histories of 4..25 operations over 1..3 masters of a versioned class with sqlmeta.lazyUpdate = True (stream lazy, no '
+        'UNIQUE column, class connection): create, assignment, set, syncUpdate, expire, restore; one in four flushes every assignment at once. '
         'Non-trivial = at least two masters or one restore, and at least three versions; distinct = distinct operation lists.')
-EXPLANATION = ('Theorems C20_* (Coq, all histories over any number of masters) over Model/Versioning.v; correspondence: the model evaluated '
-               'by vm_compute against the real SQLObject (sqlobject.versioning on sqlite) after every step: outcome, the raw master and version '
-               'tables, list(master.versions) of every master.  The oracle keeps its own history per master from the raw rows and checks '
-               'versions + [current row] == history, one version per successful update holding the previous row, the row after a restore.')
+EXPLANATION = ('Theorems C20_* (Coq, all histories over any number of masters, destroySelf of masters and versions and the read-only '
+               'nextVersion / getChangedFields included) over Model/Versioning.v; correspondence: the model evaluated '
+               'by vm_compute against the real SQLObject (sqlobject.versioning on sqlite) after every step: outcome (for nextVersion / '
+               'getChangedFields: the version or master returned, the columns named), the raw master and version '
+               'tables, list(master.versions) of every live master.  The oracle keeps its own history per master from the raw rows and checks '
+               'versions + [current row] == history (without the states whose version was destroyed), one version per successful update holding '
+               'the previous row, the row after a restore, that a destroyed master leaves its versions untouched and no later master sees them, '
+               'For the lazyUpdate fixture (outside the Coq model, its Coq case is the empty history) the oracle alone judges: one version per '
+               'assignment holding the instance\'s previous values, nothing written before syncUpdate, syncUpdate writes the instance values, and the '
+               'property for the row whenever nothing is queued (failing there = open finding lazy_update_versions_unsynced_states).  Further: '
+               'that nextVersion() is the entry after the version in its master\'s list (else the master) and getChangedFields() the columns where the two differ.')
 TRUSTED_BASE = [
     'Coq 8.16.1 kernel + vm_compute (examples, correspondence); no native_compute',
     'Model/Versioning.v is hand-written after versioning/__init__.py (Versioning.rowUpdate, Version.restore, Versioning.__get__) and '
@@ -36,12 +48,16 @@ TRUSTED_BASE = [
     'one instance per master, no raw SQL, no second connection (this is property C05); sqlite returns the rows of an unordered SELECT in rowid order; '
     'AUTOINCREMENT ids (a refused INSERT uses none), UNIQUE ignores NULLs and is checked per statement',
     'fixture: master columns a=IntCol(unique=True) b=StringCol(default=None) c=ForeignKey(other class, default=7; set and read through cID, never '
-    'dereferenced, sqlite does not enforce it), eager (not lazyUpdate), no extraCols, no inheritance, '
-    'masters are never destroyed; dateArchived is not compared',
+    'dereferenced, sqlite does not enforce it), eager; no extraCols, no inheritance; '
+    'the lazyUpdate fixture of stream lazy is NOT in the Coq model (its cases go to Coq as the empty history): only the oracle judges it, against the '
+    'instance values the harness reads after every step; after expire() the harness goes on with the instance get() hands out (expire takes the '
+    'instance out of the cache; two live instances of one row are C05); '
+    'a destroyed python instance is not used again (the harness drops its handle); dateArchived is not compared',
+    'ids of destroyed masters and versions are never handed out again: sqlite AUTOINCREMENT (the model keeps monotone counters)',
     'the JSONCol / DateTimeCol columns of the fixture are outside the Coq model: the oracle alone judges them, by value (python objects read from the '
     'master and from every version against its own record of what each held when it was archived)',
-    'foreign modes: Model/Versioning.v wstep -- everything happens on the instance connection, the class database (decoy) is dumped after every '
-    'step and must stay as it was; sqlite :memory: databases, the Transaction is rolled back at the end of the case',
+    'foreign modes: Model/Versioning.v wstep -- everything happens on the instance connection (restore since 61db062, nextVersion since 7323516); '
+    'the class database (decoy) is dumped after every step and must stay as it was; sqlite :memory: databases, the Transaction is rolled back at the end of the case',
     'the correspondence harness tools/props/c20.py and the cases.v evaluation',
 ]
 
@@ -78,7 +94,7 @@ class _Sim(object):
     """the generator's own bookkeeping of the tables, to steer the streams (not used by the oracle)"""
 
     def __init__(self):
-        self.rows, self.vers = {}, []
+        self.rows, self.vers, self.nextid, self.gone = {}, [], 1, set()
 
     def conflict(self, m, a):
         return a is not None and any(r[0] == a for k, r in self.rows.items() if k != m)
@@ -92,7 +108,8 @@ class _Sim(object):
             return 'fail'
         if self.conflict(None, d[0]):
             return 'dup'
-        self.rows[len(self.rows) + 1] = [d[0], d[1], d[2]]
+        self.rows[self.nextid] = [d[0], d[1], d[2]]
+        self.nextid += 1
         return 'ok'
 
     def update(self, m, pairs):
@@ -115,16 +132,43 @@ class _Sim(object):
         self.vers.append((m, list(self.rows[m])))
         return 'kw'
 
+    def has_version(self, vid):
+        return 1 <= vid <= len(self.vers) and vid not in self.gone
+
     def restore(self, vid):
-        if not (1 <= vid <= len(self.vers)):
+        if not self.has_version(vid):
             return 'fail'
         m, vals = self.vers[vid - 1]
         return self.update(m, list(enumerate(vals)))
+
+    def destroy(self, m):
+        if m not in self.rows:
+            return 'fail'
+        del self.rows[m]
+        return 'ok'
+
+    def destroyver(self, vid):
+        if not self.has_version(vid):
+            return 'fail'
+        self.gone.add(vid)
+        return 'ok'
+
+    def query(self, vid):
+        """nextVersion / getChangedFields: fails for an unknown version and for the last version of a destroyed master"""
+        if not self.has_version(vid):
+            return 'fail'
+        m = self.vers[vid - 1][0]
+        later = [i for i in range(vid + 1, len(self.vers) + 1) if i not in self.gone and self.vers[i - 1][0] == m]
+        return 'ok' if later or m in self.rows else 'fail'
+
+    def alive_versions(self):
+        return [i for i in range(1, len(self.vers) + 1) if i not in self.gone]
 
     def copy(self):
         x = _Sim()
         x.rows = dict((k, list(v)) for k, v in self.rows.items())
         x.vers = [(m, list(v)) for m, v in self.vers]
+        x.nextid, x.gone = self.nextid, set(self.gone)
         return x
 
 
@@ -138,39 +182,59 @@ def rand_extras(rng):
 
 
 def gen_case(rng, stream, mode='class'):
-    bad = 0.0 if stream == 'valid' else 0.08 if stream == 'kwrefused' else 0.2
+    """streams: valid / failing / dbrefused / kwrefused as before (all of them now with a few nextVersion / getChangedFields calls, which
+    change nothing); destroy = valid operations plus destroySelf of masters and of versions and many read-only calls, and a few operations
+    on what was destroyed (restore of a destroyed version / of a version of a destroyed master, nextVersion of an orphan)"""
+    bad = 0.0 if stream in ('valid', 'destroy') else 0.08 if stream == 'kwrefused' else 0.2
+    strict = stream == 'valid'
+    loose = stream not in ('valid', 'destroy')
     nm = rng.randint(1, 5)
     ops = []
     sim = _Sim()
     n = rng.randint(5, 40)
     tries = 0
+    pq = 0.22 if stream == 'destroy' else 0.07
     while len(ops) < n and tries < 400:
         tries += 1
         r = rng.random()
-        masters, versions = len(sim.rows), len(sim.vers)
-        if masters == 0 or (masters < nm and r < 0.25):
-            need_a = not (stream != 'valid' and rng.random() < 0.3)
+        masters, versions = sim.nextid - 1, len(sim.vers)
+        alive = sim.alive_versions()
+        if len(sim.rows) == 0 or (len(sim.rows) < nm and r < 0.25):
+            need_a = not (loose and rng.random() < 0.3)
             op = ['create', rand_kw(rng, bad, need_a), rand_extras(rng)]
+        elif versions and rng.random() < pq:
+            vid = rng.choice(alive) if alive and rng.random() < 0.93 else rng.randint(1, versions + 2)
+            op = [rng.choice(['next', 'changed']), vid]
+        elif stream == 'destroy' and rng.random() < 0.09:
+            if versions and rng.random() < 0.6:
+                op = ['destroyver', rng.choice(alive) if alive and rng.random() < 0.9 else rng.randint(1, versions + 2)]
+            else:
+                op = ['destroy', rng.randint(1, masters)]
         else:
-            m = rng.randint(1, masters) if not (stream != 'valid' and rng.random() < 0.03) else masters + 1
+            m = rng.randint(1, masters) if not (loose and rng.random() < 0.03) else masters + 1
             if r < 0.5 or (r >= 0.75 and versions == 0):
                 c = rng.randrange(3)
                 op = ['assign', m, c, rand_val(rng, c, bad)]
             elif r < 0.75:
                 op = ['set', m, rand_kw(rng, bad, False) if rng.random() < 0.92 else []]
-                if stream != 'valid' and rng.random() < (0.45 if stream == 'kwrefused' else 0.08):
+                if loose and rng.random() < (0.45 if stream == 'kwrefused' else 0.08):
                     op[0] = 'setbad'
                 elif rng.random() < 0.4:
                     op.append(rand_extras(rng))
             else:
-                vid = rng.randint(1, versions) if not (stream != 'valid' and rng.random() < 0.05) else versions + 3
+                vid = rng.randint(1, versions) if not (loose and rng.random() < 0.05) else versions + 3
                 op = ['restore', vid]
         trial = sim.copy()
         res = (trial.create(op[1]) if op[0] == 'create' else
                trial.restore(op[1]) if op[0] == 'restore' else
                trial.refuse(op[1], op[2]) if op[0] == 'setbad' else
+               trial.destroy(op[1]) if op[0] == 'destroy' else
+               trial.destroyver(op[1]) if op[0] == 'destroyver' else
+               trial.query(op[1]) if op[0] in ('next', 'changed') else
                trial.update(op[1], [[op[2], op[3]]] if op[0] == 'assign' else op[2]))
-        if stream == 'valid' and res != 'ok':
+        if strict and res != 'ok':
+            continue
+        if stream == 'destroy' and (res == 'dup' or (res == 'fail' and rng.random() < 0.7)):
             continue
         if stream in ('failing', 'kwrefused') and res == 'dup' and op[0] != 'create':
             continue
@@ -185,8 +249,53 @@ def gen_case(rng, stream, mode='class'):
     return case
 
 
+def gen_lazy_case(rng):
+    """a versioned class with sqlmeta.lazyUpdate = True (no UNIQUE column: the flush is never refused): create, assignment, set (queued),
+    syncUpdate (the flush), expire (drops what is queued), restore.  One case in four is disciplined: every assignment is flushed at once
+    -- there the property holds for the row as well."""
+    disciplined = rng.random() < 0.25
+    nm = rng.randint(1, 3)
+    ops, masters, versions = [], 0, 0
+    n = rng.randint(4, 25)
+    while len(ops) < n:
+        r = rng.random()
+        if masters == 0 or (masters < nm and r < 0.2):
+            ops.append(['create', rand_kw(rng, 0.0, True)])
+            masters += 1
+            continue
+        m = rng.randint(1, masters)
+        if r < 0.5:
+            c = rng.randrange(3)
+            bad = 0.0 if disciplined else 0.06
+            v = rand_val(rng, c, bad)
+            ops.append(['assign', m, c, v])
+            versions += 1 if val_ok(c, v) else 0
+        elif r < 0.62:
+            ops.append(['set', m, rand_kw(rng, 0.0, False)])
+            versions += 1
+        elif r < 0.8 and not disciplined:
+            ops.append(['sync', m])
+        elif r < 0.87 and not disciplined:
+            ops.append(['expire', m])
+        elif versions:
+            ops.append(['restore', rng.randint(1, versions)])
+            versions += 1
+        else:
+            continue
+        if disciplined and ops[-1][0] in ('assign', 'set', 'restore'):
+            ops.append(['sync', m] if ops[-1][0] != 'restore' else ['syncall'])
+    return {'stream': 'lazy', 'lazy': True, 'ops': ops}
+
+
 def corpus():
     return [
+        # witness of the open finding lazy_update_versions_unsynced_states: two queued assignments flushed as one UPDATE leave two versions,
+        # the second holding a state the row never had; an assignment dropped by expire() leaves a version; restore only queues
+        {'stream': 'lazy', 'lazy': True, 'ops': [['create', [[0, 1]]], ['assign', 1, 0, 2], ['assign', 1, 1, 'x'], ['sync', 1], ['assign', 1, 0, 6],
+                                                 ['expire', 1], ['restore', 1], ['sync', 1]]},
+        # a lazy master whose every assignment is flushed at once: the property holds for the row
+        {'stream': 'lazy', 'lazy': True, 'ops': [['create', [[0, 1]]], ['assign', 1, 0, 2], ['sync', 1], ['set', 1, [[1, 'x'], [2, 3]]], ['sync', 1],
+                                                 ['restore', 1], ['syncall'], ['assign', 1, 0, 'x'], ['sync', 1]]},
         # witness of the fixed finding refused_update_leaves_version (6e91999)
         {'stream': 'failing', 'ops': [['create', [[0, 1]]], ['assign', 1, 0, 'x']]},
         {'stream': 'failing', 'ops': [['create', [[0, 1]]], ['set', 1, [[1, 'q'], [2, 'x']]], ['assign', 1, 0, 2], ['restore', 1]]},
@@ -205,6 +314,20 @@ def corpus():
                                                        ['set', 2, [[2, 3]], {'t': '2001-02-03 04:05:06'}], ['assign', 1, 0, 5]]},
         {'stream': 'valid', 'mode': 'txn', 'ops': [['create', [[0, 1]], {}], ['assign', 1, 1, 'x'], ['assign', 1, 0, 4], ['restore', 1],
                                                    ['assign', 1, 2, 2]]},
+        # destroySelf of a master: its versions stay; the master created afterwards never sees them; restore / nextVersion of an orphan
+        {'stream': 'destroy', 'ops': [['create', [[0, 1]]], ['create', [[0, 2]]], ['assign', 1, 1, 'x'], ['assign', 1, 0, 5], ['assign', 2, 1, 'yy'],
+                                      ['next', 1], ['changed', 1], ['next', 2], ['changed', 2], ['destroy', 1], ['next', 1], ['next', 2],
+                                      ['changed', 2], ['restore', 1], ['create', [[0, 1]]], ['assign', 3, 1, 'q'], ['destroy', 1], ['changed', 3]]},
+        # destroySelf of versions: the others stay in order; nextVersion skips the hole; restore of the destroyed one is refused
+        {'stream': 'destroy', 'ops': [['create', [[0, 1]], {'j': {'k': 1}}], ['assign', 1, 1, 'x'], ['assign', 1, 0, 5], ['assign', 1, 2, 3],
+                                      ['set', 1, [[1, 'q']], {'j': 7, 't': '2001-02-03 04:05:06'}], ['changed', 3], ['changed', 4],
+                                      ['destroyver', 2], ['next', 1], ['changed', 1], ['restore', 2], ['destroyver', 2], ['destroyver', 4],
+                                      ['next', 3], ['changed', 3], ['assign', 1, 0, 6], ['next', 3], ['restore', 1], ['destroyver', 9]]},
+        # witness of next_version_ignores_version_connection, fixed by 7323516 (per-call connection, transaction): regression cases
+        {'stream': 'valid', 'mode': 'perconn', 'ops': [['create', [[0, 1]], {}], ['assign', 1, 1, 'x'], ['assign', 1, 0, 2], ['next', 1],
+                                                       ['changed', 1], ['next', 2], ['changed', 2]]},
+        {'stream': 'valid', 'mode': 'txn', 'ops': [['create', [[0, 1]], {}], ['create', [[0, 2]], {}], ['assign', 2, 1, 'x'], ['assign', 2, 0, 3],
+                                                   ['assign', 1, 1, 'y'], ['next', 1], ['changed', 1], ['next', 2]]},
         # JSON / DateTime columns: archived and restored by value
         {'stream': 'valid', 'ops': [['create', [[0, 1]], {'j': {'k': 1}, 't': '2001-02-03 04:05:06'}], ['assign', 1, 1, 'x'],
                                     ['set', 1, [[0, 2]], {'j': [1, 'two', None], 't': None}], ['restore', 1], ['restore', 2]]},
@@ -219,12 +342,13 @@ def corpus():
 
 def generate(rng, tier):
     n = 900 if tier == 'quick' else 15000
-    return [gen_case(rng, ['valid', 'valid', 'failing', 'dbrefused', 'valid', 'kwrefused'][i % 6],
+    lazy = [gen_lazy_case(rng) for _i in range(n // 15)]
+    return lazy + [gen_case(rng, ['valid', 'destroy', 'failing', 'dbrefused', 'valid', 'kwrefused', 'destroy'][i % 7],
                      ['class', 'perconn', 'class', 'txn', 'class'][i % 5]) for i in range(n)]
 
 
 def search_cases(rng, tier):
-    return [gen_case(rng, ['valid', 'failing', 'dbrefused', 'kwrefused'][i % 4], ['class', 'perconn', 'txn'][i % 3]) for i in range(2500)]
+    return [gen_lazy_case(rng) for _i in range(150)] + [gen_case(rng, ['valid', 'failing', 'dbrefused', 'kwrefused', 'destroy'][i % 5], ['class', 'perconn', 'txn'][i % 3]) for i in range(2500)]
 
 
 # ---------------------------------------------------------------- implementation side
@@ -307,6 +431,25 @@ def run_history(case):
         if t == 'restore':
             V.get(op[1], **ckw).restore()
             return 'done'
+        if t == 'destroyver':
+            V.get(op[1], **ckw).destroySelf()
+            return 'done'
+        if t == 'next':
+            x = V.get(op[1], **ckw).nextVersion()
+            if isinstance(x, V):
+                return ['nextv', [x.id, x.masterID, x.a, x.b, x.cID], jt(x)]
+            if isinstance(x, M):
+                return ['nextm', [x.id, x.a, x.b, x.cID], jt(x)]
+            return ['exn', 'other:returned %s' % type(x).__name__]
+        if t == 'changed':
+            return ['fields', list(V.get(op[1], **ckw).getChangedFields())]
+        if t == 'destroy':
+            o = handles.get(op[1])
+            if o is None:
+                return 'nohandle'
+            o.destroySelf()
+            del handles[op[1]]          # a destroyed instance is not used again
+            return 'done'
         o = handles.get(op[1])
         if o is None:
             return 'nohandle'
@@ -330,6 +473,7 @@ def run_history(case):
 
     steps = []
     prev_decoy = dump(decoy) if decoy is not None else None
+    decoy0 = prev_decoy
     try:
         for op in case['ops']:
             try:
@@ -360,6 +504,84 @@ def run_history(case):
                     cn.close()
                 except Exception:  # noqa
                     pass
+    res = {'steps': steps}
+    if decoy0 is not None:
+        res['decoy0'] = [decoy0[0], decoy0[1]]
+    return res
+
+
+def run_lazy_history(case):
+    """the lazyUpdate fixture (class connection only).  After every step: outcome, raw rows, raw versions, the instances' own view of their
+    columns, ids of list(master.versions)."""
+    from sqlobject import SQLObject, IntCol, StringCol, ForeignKey
+    from sqlobject.versioning import Versioning
+    from sqlobject.sqlite.sqliteconnection import SQLiteConnection
+    _counter[0] += 1
+    conn = SQLiteConnection(':memory:')
+    tag = '%dx%d' % (os.getpid(), _counter[0])
+    F = type(SQLObject)('VerifC20LF' + tag, (SQLObject,), {'_connection': conn, 'label': StringCol(default=None)})
+    meta = type('sqlmeta', (object,), {'lazyUpdate': True})
+    M = type(SQLObject)('VerifC20L' + tag, (SQLObject,), {
+        '_connection': conn, 'sqlmeta': meta,
+        'a': IntCol(), 'b': StringCol(default=None), 'c': ForeignKey(F.__name__, default=7),
+        'versions': Versioning()})
+    V = M.versions.versionClass
+    F.createTable()
+    M.createTable()
+    mt, vt = M.sqlmeta.table, V.sqlmeta.table
+    handles = {}
+
+    def do(op):
+        t = op[0]
+        if t == 'create':
+            o = M(**dict((COLS[c], v) for c, v in op[1]))
+            handles[o.id] = o
+            return 'done'
+        if t == 'restore':
+            V.get(op[1]).restore()
+            return 'done'
+        if t == 'syncall':
+            for o in handles.values():
+                o.syncUpdate()
+            return 'done'
+        o = handles.get(op[1])
+        if o is None:
+            return 'nohandle'
+        if t == 'assign':
+            setattr(o, COLS[op[2]], op[3])
+        elif t == 'set':
+            o.set(**dict((COLS[c], v) for c, v in op[2]))
+        elif t == 'sync':
+            o.syncUpdate()
+        elif t == 'expire':
+            o.expire()
+            # expire() takes the instance out of the cache: a later get() (restore does one) would build a SECOND instance of the row.
+            # One instance per master is this property's assumption (coherence of several is C05): go on with the one get() hands out
+            handles[op[1]] = M.get(op[1])
+        else:
+            raise ValueError('unknown op %r' % (op,))
+        return 'done'
+
+    steps = []
+    try:
+        for op in case['ops']:
+            try:
+                out = do(op)
+            except Exception as e:  # noqa
+                nm = type(e).__name__
+                out = ['exn', EXC.get(nm, 'other:' + nm)]
+            ms = [list(r) for r in conn.queryAll('SELECT id, a, b, c_id FROM %s ORDER BY id' % mt)]
+            vs = [list(r) for r in conn.queryAll('SELECT id, master_id, a, b, c_id FROM %s ORDER BY id' % vt)]
+            steps.append({'out': out, 'masters': ms, 'versions': vs,
+                          'views': [[i, o.a, o.b, o.cID] for i, o in sorted(handles.items())],
+                          'api': [[i, [v.id for v in o.versions]] for i, o in sorted(handles.items())]})
+    finally:
+        handles.clear()
+        conn.cache.clear()
+        try:
+            conn.close()
+        except Exception:  # noqa
+            pass
     return {'steps': steps}
 
 
@@ -367,7 +589,7 @@ def run_impl(cases):
     res = []
     for c in cases:
         try:
-            res.append(run_history(c))
+            res.append(run_lazy_history(c) if c.get('lazy') else run_history(c))
         except Exception as e:  # noqa
             res.append({'crash': '%s: %s' % (type(e).__name__, e)})
     return res
@@ -412,10 +634,20 @@ def cop(op):
         return '(VSet %s %s)' % (z(op[1]), ckw(op[2]))
     if t == 'setbad':
         return '(VSetBad %s %s)' % (z(op[1]), ckw(op[2]))
+    if t in CQ:
+        return '(%s %s)' % (CQ[t], z(op[1]))
     return '(VRestore %s)' % z(op[1])
 
 
+CQ = {'destroy': 'VDestroy', 'destroyver': 'VDestroyVer', 'next': 'VNext', 'changed': 'VChanged'}
+FIELD = {'A': 0, 'B': 1, 'Cid': 2}          # getChangedFields() answers column.title()
+FIELD_EXTRA = ('Js', 'Ts')                  # the codec columns of the fixture: judged by the oracle only
+
+
 def coq_case(c, o):
+    if c.get('lazy'):
+        # the lazyUpdate fixture is outside the Coq model: judged by the oracle alone (the empty history agrees trivially)
+        return '(Build_case false [])'
     steps = []
     prev = []
     for op, s in zip(c['ops'], o['steps']):
@@ -424,6 +656,15 @@ def coq_case(c, o):
             oc = 'VDone'
         elif out == 'nohandle':
             oc = 'VNoHandle'
+        elif out[0] == 'nextv':
+            oc = '(VNextV %s)' % cvrow(out[1])
+        elif out[0] == 'nextm':
+            oc = '(VNextM %s %s)' % (z(out[1][0]), crow(out[1][1:]))
+        elif out[0] == 'fields':
+            if all(x in FIELD or x in FIELD_EXTRA for x in out[1]):
+                oc = '(VFields [%s])' % '; '.join(CCOL[FIELD[x]] for x in out[1] if x in FIELD)
+            else:
+                oc = '(VExn XKeyError)'     # a column name the model does not know
         elif out[1] in CEXN:
             oc = '(VExn %s)' % CEXN[out[1]]
         else:
@@ -458,9 +699,118 @@ def _bad_update(op):
     return False
 
 
+def oracle_lazy(c, o):
+    """lazyUpdate master.  Judged strictly (a failure is a violation): every successful assignment / set / restore appends exactly one
+    version holding the INSTANCE's values just before it and queues the new ones (the row is not written); syncUpdate writes exactly the
+    instance's values and archives nothing; expire drops what is queued; an ill-typed assignment changes nothing.  The property itself --
+    versions + [row] is the history of the ROW, one version per UPDATE, the row after restore equals the version -- is judged after every
+    step for every master that has nothing queued (so: after each flush and each expire); where it fails although all of the above held, that is the open finding lazy_update_versions_unsynced_states."""
+    rowhist, pending = {}, {}
+    pm, pview, pv = {}, {}, []
+    first_known = None
+    for i, (op, s) in enumerate(zip(c['ops'], o['steps'])):
+        ms = dict((r[0], r[1:]) for r in s['masters'])
+        view = dict((r[0], r[1:]) for r in s['views'])
+        vs, out, t = s['versions'], s['out'], op[0]
+        f = None
+
+        def same(what):
+            return ((ms == pm or 'rows' not in what) and (view == pview or 'views' not in what) and (vs == pv or 'versions' not in what))
+        if t == 'create':
+            d = dict((cc, v) for cc, v in op[1])
+            for cc in range(3):
+                if cc not in d and cc in DEFAULT:
+                    d[cc] = DEFAULT[cc]
+            new = [m for m in ms if m not in pm]
+            if out != 'done' or len(new) != 1 or ms[new[0]] != [d.get(0), d.get(1), d.get(2)] or view.get(new[0]) != ms[new[0]] or vs != pv:
+                f = {'what': 'lazy: the created row', 'actual': [out, s['masters']]}
+            else:
+                rowhist[new[0]] = [ms[new[0]]]
+                pending[new[0]] = False
+        elif t in ('assign', 'set', 'restore'):
+            if t == 'restore':
+                ver = [r for r in pv if r[0] == op[1]]
+                m = ver[0][1] if ver else None
+                pairs = list(enumerate(ver[0][2:])) if ver else []
+            else:
+                m = op[1] if op[1] in pm else None
+                pairs = [[op[2], op[3]]] if t == 'assign' else op[2]
+            if m is None:
+                if out == 'done' or not same(['rows', 'views', 'versions']):
+                    f = {'what': 'lazy: an update of something that does not exist did something', 'actual': out}
+            elif not all(val_ok(cc, v) for cc, v in pairs):
+                if out != ['exn', 'invalid'] or not same(['rows', 'views', 'versions']):
+                    f = {'what': 'lazy: an ill-typed assignment must raise Invalid and change nothing', 'actual': out}
+            else:
+                want = list(pview[m])
+                for cc, v in pairs:
+                    want[cc] = v
+                if out != 'done':
+                    f = {'what': 'lazy: a valid assignment raised', 'actual': out}
+                elif len(vs) != len(pv) + 1 or vs[:len(pv)] != pv or vs[-1][1] != m or vs[-1][2:] != pview[m] \
+                        or (pv and vs[-1][0] <= pv[-1][0]):
+                    f = {'what': 'lazy: an assignment must append exactly one version holding the values the instance had just before',
+                         'expected': pv + [['<new id>', m] + pview[m]], 'actual': vs}
+                elif ms != pm:
+                    f = {'what': 'lazy: an assignment wrote the row before the flush', 'actual': s['masters']}
+                elif view.get(m) != want or any(view[k] != pview[k] for k in pview if k != m):
+                    f = {'what': 'lazy: the instance values after the assignment', 'expected': want, 'actual': view.get(m)}
+                else:
+                    pending[m] = True
+        elif t in ('sync', 'syncall'):
+            targets = [op[1]] if t == 'sync' else sorted(pm)
+            if t == 'sync' and op[1] not in pm:
+                if out != 'nohandle' or not same(['rows', 'views', 'versions']):
+                    f = {'what': 'lazy: syncUpdate of nothing', 'actual': out}
+            elif out != 'done' or vs != pv or view != pview \
+                    or any(ms.get(k) != (pview[k] if k in targets else pm[k]) for k in pm) or len(ms) != len(pm):
+                f = {'what': 'lazy: syncUpdate must write exactly the instance values and archive nothing', 'actual': [out, s['masters'], vs]}
+            else:
+                for k in targets:
+                    if pending.get(k):
+                        rowhist[k].append(ms[k])        # one UPDATE
+                        pending[k] = False
+        elif t == 'expire':
+            if op[1] not in pm:
+                if out != 'nohandle' or not same(['rows', 'views', 'versions']):
+                    f = {'what': 'lazy: expire of nothing', 'actual': out}
+            elif out != 'done' or ms != pm or vs != pv or view.get(op[1]) != pm[op[1]] \
+                    or any(view[k] != pview[k] for k in pview if k != op[1]):
+                f = {'what': 'lazy: expire must drop the queued values and nothing else', 'actual': [out, s['views']]}
+            else:
+                pending[op[1]] = False
+        if not f:
+            api = dict((m, ids) for m, ids in s['api'])
+            for m in sorted(ms):
+                if api.get(m) != [r[0] for r in vs if r[1] == m]:
+                    f = {'what': 'lazy: master.versions is not the rows filed under the master', 'master': m, 'actual': api.get(m)}
+                    break
+        if not f:
+            # the property, for the ROW -- judged for a master whenever nothing of it is queued (its assignments have been flushed or dropped)
+            for m in sorted(ms):
+                if pending.get(m):
+                    continue
+                got = [r[2:] for r in vs if r[1] == m] + [ms[m]]
+                if got != rowhist.get(m):
+                    f = {'what': 'lazyUpdate master: versions followed by the current row differ from the history of the row '
+                                 '(one version per assignment, holding unsynced values)', 'master': m, 'expected': rowhist.get(m), 'actual': got,
+                         'known': 'lazy_update_versions_unsynced_states'}
+                    break
+        if f:
+            f['step'], f['op'] = i, op
+            if 'known' not in f:
+                return f
+            if first_known is None:
+                first_known = f
+        pm, pview, pv = ms, view, vs
+    return first_known
+
+
 def oracle(c, o):
     if 'steps' not in o:
         return {'what': 'no observation', 'actual': o}
+    if c.get('lazy'):
+        return oracle_lazy(c, o)
     hist = {}                       # master id -> list of rows (the test's own record)
     prev_m, prev_api = [], {}
     db_refused = set()              # masters one of whose updates the DATABASE refused (open finding)
@@ -468,6 +818,10 @@ def oracle(c, o):
     first_known = None
     foreign = c.get('mode', 'class') != 'class'
     cur_sh, vshadow = {}, {}        # the codec columns j, t (outside the Coq model): current values per master, values per version id
+    arch = {}                       # master id -> ids of the versions archived by its successful updates (parallel to hist[m][:-1])
+    gone = set()                    # ids of the destroyed versions
+    dead = {}                       # destroyed master id -> the raw version rows it left behind
+    prev_v = []
     for i, (op, s) in enumerate(zip(c['ops'], o['steps'])):
         ms = dict((r[0], r[1:]) for r in s['masters'])
         api = dict((m, [v[:5] for v in vs]) for m, vs in s['api'])
@@ -500,8 +854,77 @@ def oracle(c, o):
                     f = {'what': 'the created row', 'actual': s['masters']}
                 else:
                     hist[new[0]] = [ms[new[0]]]
+                    arch[new[0]] = []
                     x = op[2] if len(op) > 2 and op[2] else {}
                     cur_sh[new[0]] = [x.get('j'), x.get('t')]
+        elif t == 'destroy':
+            m = op[1]
+            if m not in pm:
+                if out != 'nohandle' or s['masters'] != prev_m or s['versions'] != prev_v:
+                    f = {'what': 'destroySelf of a master that does not exist did something', 'actual': out}
+            elif out != 'done' or m in ms or dict((k, v) for k, v in pm.items() if k != m) != ms:
+                f = {'what': 'destroySelf of a master must delete exactly its row', 'actual': [out, s['masters']]}
+            elif s['versions'] != prev_v:
+                f = {'what': 'destroySelf of a master changed the version table (its versions stay behind)', 'expected': prev_v,
+                     'actual': s['versions']}
+            else:
+                dead[m] = [r for r in s['versions'] if r[1] == m]
+                cur_sh.pop(m, None)
+        elif t == 'destroyver':
+            row = [r for r in prev_v if r[0] == op[1]]
+            if not row:
+                if out != ['exn', 'notfound'] or s['versions'] != prev_v or s['masters'] != prev_m:
+                    f = {'what': 'destroySelf of a version that does not exist did something', 'actual': out}
+            elif out != 'done' or s['versions'] != [r for r in prev_v if r[0] != op[1]] or s['masters'] != prev_m:
+                f = {'what': 'destroySelf of a version must delete exactly that version', 'actual': [out, s['versions']]}
+            else:
+                gone.add(op[1])
+        elif t in ('next', 'changed'):
+            if s['versions'] != prev_v or s['masters'] != prev_m:
+                f = {'what': 'nextVersion / getChangedFields changed a table'}
+            row = [r for r in prev_v if r[0] == op[1]]
+            if f:
+                pass
+            elif not row:
+                if out != ['exn', 'notfound']:
+                    f = {'what': 'nextVersion / getChangedFields of a version that does not exist', 'actual': out}
+            else:
+                row = row[0]
+                mm = row[1]
+                # the version list of its master, as master.versions gave it after the previous step (orphans: the raw rows)
+                lst = prev_api[mm] if mm in prev_api and mm in pm else [r for r in prev_v if r[1] == mm]
+                pos = [v[0] for v in lst].index(op[1]) if op[1] in [v[0] for v in lst] else None
+                if pos is None:
+                    f = {'what': 'a version is missing from the list of its master', 'master': mm}
+                else:
+                    succ = lst[pos + 1] if pos + 1 < len(lst) else None
+
+                    def answer(succ, shadows):
+                        if succ is not None:
+                            vals, sh = succ[2:5], shadows and vshadow.get(succ[0])
+                            nxt = ['nextv', succ[:5]]
+                        elif mm in pm:
+                            vals, sh = pm[mm], shadows and sh_before.get(mm)
+                            nxt = ['nextm', [mm] + pm[mm]]
+                        else:
+                            return ['exn', 'notfound'], None
+                        if t == 'next':
+                            return nxt, sh
+                        mine = vshadow.get(op[1])
+                        fields = [nm for k, nm in enumerate(['A', 'B', 'Cid']) if row[2 + k] != vals[k]]
+                        if sh and mine:
+                            fields += [nm for k, nm in enumerate(FIELD_EXTRA) if mine[k] != sh[k]]
+                        return ['fields', fields], None
+                    exp, sh = answer(succ, True)
+                    got = out if t == 'next' or not isinstance(out, list) or out[0] != 'fields' else out
+                    if (got[:2] if isinstance(got, list) else got) != exp:
+                        f = {'what': ('nextVersion() must return the next version of the same master, or the master after the last one'
+                                      if t == 'next' else
+                                      'getChangedFields() must name the columns in which the version differs from its successor'),
+                             'expected': exp, 'actual': out}
+                    elif t == 'next' and sh is not None and out[2] != sh:
+                        f = {'what': 'the JSON / DateTime columns of what nextVersion() returned differ (by value) from what was stored',
+                             'expected': sh, 'actual': out[2]}
         else:
             if t == 'restore':
                 ver = [r for r in s['versions'] if r[0] == op[1] and r[0] in [x[0] for vs in prev_api.values() for x in vs]]
@@ -553,6 +976,7 @@ def oracle(c, o):
                     f = {'what': 'a successful update must append exactly one version holding the previous row',
                          'expected': before + [['<new id>', target] + pm[target]], 'actual': after}
                 hist[target].append(ms[target])
+                arch[target].append(after[-1][0] if after else None)
         # the codec columns, by value: a version archived now holds what its master held before this step
         for m, vs in apix.items():
             for v in vs:
@@ -578,19 +1002,32 @@ def oracle(c, o):
                 if any(v[1] != m for v in vs):
                     f = {'what': 'master.versions returned a version of another master', 'master': m, 'actual': vs}
                     break
-                if [v[2:] for v in vs] + [ms[m]] != hist.get(m):
-                    f = {'what': 'versions followed by the current row differ from the history of the row', 'master': m,
-                         'expected': hist.get(m), 'actual': [v[2:] for v in vs] + [ms[m]]}
+                exp_h = None
+                if m in hist:       # without the states whose version was destroyed
+                    exp_h = [h for h, vid in zip(hist[m][:-1], arch.get(m, [])) if vid not in gone] + [hist[m][-1]]
+                if [v[2:] for v in vs] + [ms[m]] != exp_h:
+                    f = {'what': 'versions followed by the current row differ from the history of the row'
+                                 + (' (without the destroyed versions)' if gone else ''), 'master': m,
+                         'expected': exp_h, 'actual': [v[2:] for v in vs] + [ms[m]]}
                     if m in db_refused:
                         f['known'] = 'db_refused_update_leaves_version'
                     elif m in kw_refused:
                         f['known'] = 'keyword_refused_set_leaves_version'
                     break
             if not f:
-                allv = sorted(v[0] for vs in api.values() for v in vs)
+                # the versions a destroyed master left behind stay exactly as they were (until destroyed themselves)
+                for m in sorted(dead):
+                    if [r for r in s['versions'] if r[1] == m] != [r for r in dead[m] if r[0] not in gone]:
+                        f = {'what': 'the versions left behind by a destroyed master changed', 'master': m,
+                             'expected': [r for r in dead[m] if r[0] not in gone], 'actual': [r for r in s['versions'] if r[1] == m]}
+                        break
+            if not f:
+                allv = sorted([v[0] for m_, vs in api.items() if m_ in ms for v in vs]
+                              + [r[0] for m_ in dead for r in dead[m_] if r[0] not in gone])
                 if allv != [r[0] for r in s['versions']]:
-                    f = {'what': 'the version table is not the disjoint union of the per-master lists', 'actual': s['versions']}
-        if not f and t != 'create' and target is not None:
+                    f = {'what': 'the version table is not the disjoint union of the per-master lists (and the orphans of destroyed masters)',
+                         'actual': s['versions']}
+        if not f and t not in ('create', 'destroy', 'destroyver', 'next', 'changed') and target is not None:
             # versions of the other masters are untouched
             for m in prev_api:
                 if m != target and api.get(m) != prev_api[m]:
@@ -602,13 +1039,15 @@ def oracle(c, o):
                 return f
             if first_known is None:
                 first_known = f
-        prev_m, prev_api = s['masters'], api
+        prev_m, prev_api, prev_v = s['masters'], api, s['versions']
     return first_known
 
 
 def classify(c, o, f):
     # refused_update_leaves_version is fixed (6e91999): a version left by an update that VALIDATION refused is a violation again;
-    # open: the history of a master one of whose updates the DATABASE refused (UNIQUE) after validation had passed
+    # open: the history of a master one of whose updates the DATABASE refused (UNIQUE) after validation had passed; the history of a master
+    # one of whose set() calls carried an unknown keyword.  next_version_ignores_version_connection is fixed (7323516): a wrong
+    # nextVersion / getChangedFields answer on a foreign connection is a violation again
     return f.get('known')
 
 
@@ -616,11 +1055,13 @@ def nontrivial(c, o):
     if 'steps' not in o or not o['steps']:
         return False
     last = o['steps'][-1]
+    if c.get('lazy'):
+        return len(last['versions']) >= 3
     return len(last['versions']) >= 3 and (len(last['masters']) >= 2 or any(op[0] == 'restore' for op in c['ops']))
 
 
 def key(c):
-    return [c.get('mode', 'class'), c['ops']]
+    return ['lazy' if c.get('lazy') else c.get('mode', 'class'), c['ops']]
 
 
 def distribution(cases, obs):
@@ -628,13 +1069,14 @@ def distribution(cases, obs):
          'refused_updates': 0, 'empty_sets': 0}
     for c, o in zip(cases, obs):
         d['streams'][c['stream']] = d['streams'].get(c['stream'], 0) + 1
-        d['modes'][c.get('mode', 'class')] = d['modes'].get(c.get('mode', 'class'), 0) + 1
+        md = 'lazy' if c.get('lazy') else c.get('mode', 'class')
+        d['modes'][md] = d['modes'].get(md, 0) + 1
         if not isinstance(o, dict) or 'steps' not in o:
             continue
         prev = []
         for op, s in zip(c['ops'], o['steps']):
             d['ops'][op[0]] = d['ops'].get(op[0], 0) + 1
-            out = s['out'] if isinstance(s['out'], str) else s['out'][1]
+            out = s['out'] if isinstance(s['out'], str) else (s['out'][1] if s['out'][0] == 'exn' else s['out'][0])
             d['outcomes'][out] = d['outcomes'].get(out, 0) + 1
             if op[0] in ('assign', 'set') and out == 'invalid':
                 d['refused_updates'] += 1
@@ -642,7 +1084,7 @@ def distribution(cases, obs):
                 d['db_refused_updates'] = d.get('db_refused_updates', 0) + 1
             if op[0] == 'setbad' and out == 'typeerror':
                 d['keyword_refused_sets'] = d.get('keyword_refused_sets', 0) + 1
-            if op[0] == 'set' and not op[1 + 1]:
+            if op[0] == 'set' and not op[1 + 1] and not c.get('lazy'):
                 d['empty_sets'] += 1
             if op[0] == 'restore' and out == 'done' and s['masters'] == prev:
                 d['restores_equal_to_current'] += 1
